@@ -15,6 +15,9 @@ type FieldOpts struct {
 	NValues int
 	// Negative selects a case that must be rejected: "" | unknownfield | badpath | automapnonstruct | ambiguous | ambiguousexact | nonstruct | overlap | autoambig
 	Negative string
+	// SkipCopy forces skipCopySameType; Kinds, when set, replaces the list the field kinds are drawn from.
+	SkipCopy bool
+	Kinds    []string
 }
 
 var leafBasics = []string{"int", "string", "bool", "float64", "int64", "uint8"}
@@ -104,6 +107,9 @@ func FieldCase(r *rand.Rand, name string, o FieldOpts) *Case {
 	snapshot := false
 	nf := 3 + r.Intn(5)
 	kinds := []string{"same", "same", "rename", "recase", "nested", "nestedptr", "automap", "whole", "method", "ignore", "missing", "unexported", "exactwins", "exactmethod", "sourceonly", "allmissing", "snapshot"}
+	if o.Kinds != nil {
+		kinds = o.Kinds
+	}
 	for i := 0; i < nf; i++ {
 		kind := kinds[r.Intn(len(kinds))]
 		base := fmt.Sprintf("F%c", 'a'+i)
@@ -365,7 +371,7 @@ func FieldCase(r *rand.Rand, name string, o FieldOpts) *Case {
 			}
 		}
 	}
-	if r.Intn(4) == 0 {
+	if o.SkipCopy || r.Intn(4) == 0 {
 		// passed-through positions must be the only shared memory
 		convLines = append(convLines, "skipCopySameType")
 		flagsConv.SkipCopy, flagsMeth.SkipCopy = true, true
@@ -552,6 +558,10 @@ func negativeFieldCasesLocal() []*Case {
 			"type In struct{ A int; B string }\ntype Out struct{ A int; B string }\n", "// goverter:converter\n// goverter:ignoreUnexported\ntype Converter interface {\n\t// goverter:map B hidden\n\tConvert(source In) Out2\n}\ntype Out2 struct{ A int; hidden string }\n"),
 		mk("delegate_with_field_settings", "field settings on a method that delegates to an extend function of the same signature",
 			"type In struct{ A int; B string }\ntype Out struct{ A int; B string }\nfunc Ext(i In) Out { return Out{} }\n", "// goverter:converter\n// goverter:extend Ext\ntype Converter interface {\n\t// goverter:ignore B\n\tConvert(source In) Out\n}\n"),
+		mk("delegate_underlying_with_field_settings", "field settings on a method that useUnderlyingTypeMethods delegates to an extend function for the underlying struct",
+			"type In struct{ A string }\ntype Out struct{ A string; X int }\nfunc Ext(s struct{ A string }) Out { return Out{A: s.A, X: 42} }\n", "// goverter:converter\n// goverter:useUnderlyingTypeMethods\n// goverter:extend Ext\ntype Converter interface {\n\t// goverter:ignore X\n\tConvert(source In) Out\n}\n"),
+		mk("delegate_underlying_target_with_field_settings", "field settings on a method that useUnderlyingTypeMethods delegates to an extend function returning the underlying struct",
+			"type In struct{ A string }\ntype Out struct{ A string; X int }\nfunc Ext(s In) struct{ A string; X int } { return struct{ A string; X int }{A: s.A, X: 42} }\n", "// goverter:converter\n// goverter:useUnderlyingTypeMethods\n// goverter:extend Ext\ntype Converter interface {\n\t// goverter:map A X | Len\n\tConvert(source In) Out\n}\nfunc Len(s string) int { return len(s) }\n"),
 		mk("overlap_default_assign_path", "field settings on the pointer variant while a sibling S -> *T with goverter:default converts the struct inline",
 			"type In struct{ Name, Title string }\ntype Out struct{ Title string }\nfunc NewOut() *Out { return &Out{} }\n", "// goverter:converter\ntype Converter interface {\n\t// goverter:default NewOut\n\tConvertA(source In) *Out\n\t// goverter:map Name Title\n\tConvertB(source *In) *Out\n}\n"),
 		mk("overlap_unnamed", "field settings on the pointer variant of an unnamed struct pair while a sibling converts the structs inline",
